@@ -359,6 +359,17 @@ func (t *timeDependentDurationExpressionImpl) SetExpression(
 			))
 		}
 
+		if element.next != nil && element.end < newElement.end {
+			return nmerror.NewArgumentMismatchError(fmt.Errorf(
+				"new time dependent expression %s [%v, %v] overlaps with an existing"+
+					" expression starting at %v",
+				expression.Name(),
+				t.model.ValueToTime(newElement.start),
+				t.model.ValueToTime(newElement.end),
+				t.model.ValueToTime(element.end),
+			))
+		}
+
 		splitElement1 := &expressionElement{
 			start:      element.start,
 			end:        startMinutesFromEpoch,
